@@ -170,6 +170,9 @@ func (o *OpAdd) Do(ctx context.Context, s *Service) error {
 			Bs:       match.NewBindings(),
 		}
 	}
+	if o.Machine.State.Bs == nil {
+		o.Machine.State.Bs = match.NewBindings()
+	}
 	// get spec and set default values if they are not provided by
 	// initial bindings
 	specter, err := s.GetSpec(ctx, o.Machine.SpecSource)
